@@ -20,12 +20,25 @@ const Rule = "case = (grammar, one transformation): the grammar description line
 	"/repo); grammars: gx.Random under eight option mixes " +
 	"(bodies up to 8, nullable symbols anywhere, unit cycles, direct/indirect left recursion, common prefixes) " +
 	"+ terminals named like non-terminals ('X) + pipelines T1 then T2 for all ordered pairs (inputs that already " +
-	"carry primed / subscripted names) + bodies of 99-104 symbols (BIN's suffix limit) " +
+	"carry primed / subscripted names) + names that look generated (a base name with subscripted / primed / ₙ-suffixed siblings " +
+	"A, A₁, A₂, A′, A₁₂, aₙ … and a body of 3-5 symbols for one of them; where the result grammar depends on Go's iteration order — " +
+	"two heads / terminals that draw from overlapping lists of fresh names — sentences are compared instead of grammars) " +
+	"+ bodies of 99-104 symbols (BIN's suffix limit) " +
+	"+ component history (harness/c08/history.go): a pool of live *grammar.CFG objects kept and reused from op to op — `apply i T j` " +
+	"(the seven transformations, START / TERM / BIN, Clone; the result object is the operand of later ops), edits through " +
+	"g.Productions.Add/Remove, g.NonTerminals.Add, g.Terminals.Add, NullableNonTerminals, ComputeFIRST+ComputeFOLLOW, Equal, dumps and " +
+	"bounded languages; the Model side is the pure Model applied to values (Model/C08Hist.lean); oracle: L_k(result) = L_k(operand as it " +
+	"is at the time of the call), every live object other than the one an op writes renders exactly as recorded (deep rendering after " +
+	"every op: no transformation touches its receiver, no edit of a result reaches its operand or vice versa), edits are exact, nullable " +
+	"sets are the least fixpoint of the current value; histories: random, `nullable-then-change` (nullable set computed, then A → ε added " +
+	"by the owner or A′ → ε by LeftFactor, then the ε-dependent transformations) and `aliasing` (operand and result edited in turn); " +
+	"(thorough) all histories of three ops over a 12-14 op alphabet on two grammars " +
 	"+ helper cases (the comparators / hashes / WriteString / Symbols / Equal / IsCNF / Verify / *Match of symbol.go, string.go, " +
 	"production.go, cfg.go on valid grammars, on grammars with the endmarker terminal or a terminal named like a non-terminal and " +
 	"on grammars broken in each way Verify() reports; each judged by an independent re-statement of its doc comment) " +
 	"+ corpus + (thorough) every grammar over S,A / a,b with 1-2 alternatives of length <= 2 per non-terminal; " +
-	"non-trivial = the transformation changed the grammar and L_k(G) has at least 3 sentences; " +
+	"non-trivial = the transformation changed the grammar and L_k(G) has at least 3 sentences (history: some transformation changed " +
+	"its operand and the history either chains transformations or edits an object); " +
 	"distinct = distinct (grammar, op)"
 
 // OracleK is the default length bound of the language comparison (see BoundFor).
@@ -159,6 +172,9 @@ func Exec(c hx.Case) hx.Result {
 			res.What = fmt.Sprintf(format, a...)
 			res.Sig = sig
 		}
+	}
+	if hx.HeaderGet(c.Header, "comp") == "history" {
+		return ExecHistory(c)
 	}
 	p := ParseCase(c)
 	g := p.G
@@ -536,6 +552,15 @@ func caseFor(g gx.G, mix, op string, langK int) hx.Case {
 	return hx.Case{Header: fmt.Sprintf("comp=%s mix=%s", op, mix), Ops: ops}
 }
 
+// langOnlyCase compares sentences only (for a grammar / transformation whose result grammar depends on Go's iteration order).
+func langOnlyCase(g gx.G, mix, op string) hx.Case {
+	k := 4
+	if len(LangOf(g, 4)) > 60 {
+		k = 3
+	}
+	return hx.Case{Header: fmt.Sprintf("comp=%s mix=%s", op, mix), Ops: append(g.Lines(), fmt.Sprintf("lang %s %d", op, k))}
+}
+
 func Main(run *hx.Run) {
 	run.Stats.Rule = Rule
 	var lim SigLimiter
@@ -589,6 +614,20 @@ func Main(run *hx.Run) {
 			}
 		}
 	}
+	{
+		// names that already look generated: a base name with subscripted / primed / ₙ-suffixed siblings and a body long
+		// enough for BIN to need intermediate non-terminals (freshness of AddNewNonTerminal's answer is what is at stake)
+		r := run.R.Fork("suffixed-names")
+		for k := 0; k < run.Scale(40); k++ {
+			g := SuffixedNames(r, GenGrammar(r, Mixes[k%len(Mixes)]))
+			comps, cases := SuffixedCases(g, "suffixed-names",
+				func(g gx.G, mix, op string) hx.Case { return caseFor(g, mix, op, 0) }, langOnlyCase)
+			for i := range cases {
+				lim.Do(run, comps[i], cases[i], Exec)
+			}
+		}
+	}
+	histories(run, &lim)
 	{
 		// bodies around the limit of BIN's 99 numeric suffixes (n − 2 fresh names for a body of n symbols)
 		for n := 99; n <= 104; n++ {
